@@ -168,6 +168,84 @@ let () = register "qrdec" (fun args ->
          (hex_of_zlist r.rd_content))
   | _ -> "BAD")
 
+(* format information of a function-module matrix, read by the specification's reader *)
+let () = register "qrfmtdec" (fun args ->
+  match args with
+  | [rows] ->
+    let rows = rows_of_string rows in
+    (match read_format (px_of_rows rows) (zi (List.length rows)) with
+     | Some (l, m) -> Printf.sprintf "OK %s %d" (level_name l) (iz m)
+     | None -> "NONE")
+  | _ -> "BAD")
+
+(* function modules of a version against the ISO rules: occupancy = is_function, fixed
+   patterns in place, version information valid *)
+let () = register "qrfundec" (fun args ->
+  match args with
+  | [version; occ; vals] ->
+    let v = z_of_string version in
+    let occ = Array.of_list (List.map (fun r -> Array.of_list r) (rows_of_string occ)) in
+    let vals = rows_of_string vals in
+    let n = Array.length occ in
+    if n <> iz (spec_size v) then "BAD size" else begin
+      let zs = Array.init n zi in
+      let bad = ref 0 in
+      for y = 0 to n - 1 do for x = 0 to n - 1 do
+        if occ.(y).(x) <> is_function v zs.(x) zs.(y) then incr bad
+      done done;
+      if !bad > 0 then Printf.sprintf "BAD occupancy differs from the ISO function-module map in %d cells" !bad
+      else if not (patterns_ok (px_of_rows vals) v) then "BAD fixed patterns"
+      else if not (version_info_ok (px_of_rows vals) v (spec_size v)) then "BAD version information"
+      else "OK"
+    end
+  | _ -> "BAD")
+
+(* placement order of a version according to the specification (column-pair formulation) *)
+let () = register "qrorderspec" (fun args ->
+  match args with
+  | [version] ->
+    String.concat ";" (List.map (fun (x, y) -> Printf.sprintf "%d,%d" (iz x) (iz y))
+                         (spec_order (z_of_string version)))
+  | _ -> "BAD")
+
+(* mask predicates of Table 10 *)
+let () = register "qrmaskspec" (fun args ->
+  match args with
+  | [mask; n] ->
+    let m = z_of_string mask and n = int_of_string n in
+    let zs = Array.init n zi in
+    let grid v =
+      String.concat "/" (List.init n (fun y ->
+        String.init n (fun x -> if (v <> spec_mask m zs.(x) zs.(y)) then '1' else '0'))) in
+    grid false ^ " " ^ grid true
+  | _ -> "BAD")
+
+(* Annex E alignment centres, Table 3 count widths, Table 9 data codewords *)
+let () = register "qralignspec" (fun args ->
+  match args with
+  | [version] ->
+    "[" ^ String.concat "," (List.map (fun z -> string_of_int (iz z)) (alignment_centres (z_of_string version))) ^ "]"
+  | _ -> "BAD")
+
+let smode_of_ind = function "1" -> Some SNumeric | "2" -> Some SAlnum | "4" -> Some SByte | _ -> None
+let qlevel_of = function "0" -> Some LvL | "1" -> Some LvM | "2" -> Some LvQ | "3" -> Some LvH | _ -> None
+
+let () = register "qrccbspec" (fun args ->
+  match args with
+  | [version; mode] ->
+    (match smode_of_ind mode with
+     | Some m -> string_of_int (iz (spec_ccb m (z_of_string version)))
+     | None -> "-")
+  | _ -> "BAD")
+
+let () = register "qrtdbspec" (fun args ->
+  match args with
+  | [version; level] ->
+    (match qlevel_of level with
+     | Some l -> string_of_int (iz (spec_data_codewords (z_of_string version) l))
+     | None -> "-1")
+  | _ -> "BAD")
+
 (* capacity in characters according to the specification *)
 let () = register "qrcap" (fun args ->
   match args with
